@@ -460,6 +460,8 @@ namespace ValueFlow
                  (Token::simpleMatch(parent, "&&") && value.intvalue == 0) ||
                  (Token::simpleMatch(parent, "||") && value.intvalue != 0))) {
                 value.bound = Value::Bound::Point;
+                if (parent->str() == "||")
+                    value.intvalue = 1;
                 setTokenValue(parent, std::move(value), settings);
                 return;
             }
